@@ -26,6 +26,9 @@ type OriginOpts struct {
 	Interproc bool
 	// Stop: values satisfying Stop are leaves (tested before descending); AllFrom/AnyFrom set it to their predicate.
 	Stop func(ssa.Value) bool
+	// At: the instruction at which the value is used. When set, operands of a phi that can only arrive over a predecessor whose
+	// branch facts contradict those of At's block are not origins (two branches guarded by one flag are correlated).
+	At ssa.Instruction
 }
 
 // Origins returns the leaf values v may derive from. Phi nodes contribute all their operands; loads of
@@ -75,11 +78,27 @@ func (p *Prog) Origins(v ssa.Value, o OriginOpts) []ssa.Value {
 						return
 					}
 				}
+			case *ssa.UnOp:
+				// a field that is only ever set while its object is constructed (parameter structs, immutable records)
+				if fa, ok := x.X.(*ssa.FieldAddr); ok && x.Op == token.MUL {
+					if t, f, _, ok := FieldOf(fa); ok {
+						if vals, ok := p.ConstructOnly(t, f); ok {
+							for _, sv := range vals {
+								walk(sv, d+1)
+							}
+							return
+						}
+					}
+				}
 			}
 		}
 		switch x := v.(type) {
 		case *ssa.Phi:
-			for _, e := range x.Edges {
+			for i, e := range x.Edges {
+				if o.At != nil && o.At.Parent() == x.Parent() && i < len(x.Block().Preds) && x.Block().Dominates(o.At.Block()) && !isLoopHeader(x.Block()) &&
+					p.Contradict(x.Block().Preds[i], o.At.Block()) {
+					continue
+				}
 				walk(e, d+1)
 			}
 		case *ssa.ChangeType:
@@ -132,17 +151,16 @@ func (p *Prog) Origins(v ssa.Value, o OriginOpts) []ssa.Value {
 						leaf(v)
 						return
 					}
-					// when every store to the cell is in the loading function, the store that reaches this load along the
-					// dominator chain (if unique) is the only origin
-					local := true
-					for _, s := range st {
-						if s.Parent() != x.Parent() {
-							local = false
-						}
-					}
-					if local && len(st) > 1 {
-						if rv := p.ReachingStore(x, x); rv != nil {
-							walk(rv, d+1)
+					// only the stores that can be the last one before this load (CFG reaching definitions), when that is decidable
+					// inside the loading function
+					if len(st) > 1 {
+						if rs, complete := p.ReachingStores(x); complete && len(rs) > 0 {
+							for _, s := range rs {
+								if o.At != nil && o.At.Parent() == s.Parent() && s.Block().Dominates(o.At.Block()) == false && p.Contradict(s.Block(), o.At.Block()) {
+									continue
+								}
+								walk(s.Val, d+1)
+							}
 							return
 						}
 					}
@@ -202,6 +220,16 @@ func (p *Prog) Origins(v ssa.Value, o OriginOpts) []ssa.Value {
 	}
 	walk(v, 0)
 	return leaves
+}
+
+// isLoopHeader: some predecessor of b is dominated by b (a back edge enters it).
+func isLoopHeader(b *ssa.BasicBlock) bool {
+	for _, pb := range b.Preds {
+		if b.Dominates(pb) {
+			return true
+		}
+	}
+	return false
 }
 
 // Plain looks through conversions, slices and cells only.
